@@ -4,7 +4,7 @@ import Driver.Util
 Line protocol for C06 (heat of reaction, isothermal and adiabatic energy bookkeeping).
 All numbers are exact rationals (`n/d`); the real code's floats are sent as their exact values.
 
-  pkg N hf=.. mw=.. hvap=.. hfus=.. ref=<N phase letters>
+  pkg N hf=.. mw=.. hvap=.. hfus=.. ref=<N phase letters>      (repeated after a revision of chemical data)
   rxn <id> <mol|wt> <phases|-> X=.. r=<flat index> nu=<flat stoichiometry>
   set <id> <par|ser> <id,id,..>          members are `rxn` ids with equal basis and phases
   sys <id> <id,id,..>                    members are `rxn`/`set` ids
@@ -85,7 +85,9 @@ def step (st : St) (line : String) : St × String :=
           (field? rest "ref").bind (fun s => s.toList.mapM parsePhase) with
     | some N, some hf, some mw, some hvap, some hfus, some ref =>
       if N = 0 || hf.length ≠ N || mw.length ≠ N || hvap.length ≠ N || hfus.length ≠ N || ref.length ≠ N then (st, "bad-op")
-      else ({ st with pkg := { N := N, hf := hf, mw := mw, hvap := hvap, hfus := hfus, ref := ref }, rx := [] }, "ok")
+      -- a later `pkg` line with the same N revises the chemical data (Hf, Hfus, …) and keeps the reactions
+      else ({ st with pkg := { N := N, hf := hf, mw := mw, hvap := hvap, hfus := hfus, ref := ref },
+                      rx := if st.pkg.N = N then st.rx else [] }, "ok")
     | _, _, _, _, _, _ => (st, "bad-op")
   | "rxn" :: id :: basis :: ph :: rest =>
     match (match basis with | "mol" => some Basis.mol | "wt" => some Basis.wt | _ => none), parsePhases ph,
